@@ -27,6 +27,10 @@ func init() {
 }
 */
 
+// maxSnappyExpansion bounds the decoded size of a snappy block by its encoded size: the densest
+// element, a copy with a two-byte offset, produces 64 bytes from 3.
+const maxSnappyExpansion = 22
+
 type snappyBuf struct {
 	buf []byte
 }
@@ -83,6 +87,11 @@ func (se snappyEncoding) Unmarshal(buf []byte, msg drpc.Message) (err error) {
 	decodedLen, err := snappy.DecodedLen(buf)
 	if err != nil {
 		return
+	}
+	// the announced length comes from the peer: refuse what the block cannot possibly decode to
+	// before reserving memory for it
+	if decodedLen > len(buf)*maxSnappyExpansion {
+		return snappy.ErrCorrupt
 	}
 
 	var unmarshalBuf *snappyBuf
